@@ -25,7 +25,9 @@ RULE = (
     "every variant with all 16 colour codes and all 4 syncs in a rotating pairing) with seeded random field values; "
     "data_random draws everything with Hypothesis.  voice bursts: 216 vocoder bits around each of the four voice sync "
     "patterns, or around the reference QR(16,7,6) codeword of every (colour code, PI, LCSS) (all 128 enumerated) with 32 "
-    "embedded bits; payloads random / all-zero / all-one.  reuse: a case is two such data-burst states (second state: any non-empty subset of {payload, colour code, sync} changed; "
+    "embedded bits; payloads random / all-zero / all-one; voice_near_sync: for every SYNC word S of table 9.2 (10) and every EMB codeword "
+    "E (128) the centre E[0:8]+S[8:40]+E[8:16] - the closest a valid-EMB centre gets to S - and neighbours with 1-2 "
+    "embedded bits flipped (the minimum distance reached is recorded in the evidence).  reuse: a case is two such data-burst states (second state: any non-empty subset of {payload, colour code, sync} changed; "
     "a changed payload is new field values, another variant of the same PDU class or another class / data type) carried "
     "one after the other by the same Burst object.  Distinct by hash of the complete case.  Non-trivial: data bursts "
     "whose PDU bits are not all zero; voice bursts whose 216 vocoder bits are neither all zero nor all one; reuse cases whose two states serialise to different bytes."
@@ -620,6 +622,69 @@ def drv_voice_grid(ctx: Ctx, sub: SubCheck):
     ctx.tally.extra["emb_values_enumerated"] = 128
 
 
+def _emb_word(m: int) -> int:
+    """16-bit EMB word (reference QR(16,7,6) codeword) of the 7-bit message cc(4) | pi(1) | lcss(2)"""
+    return gf2.bits_to_int(gf2.ref_encode("qr_16_7_6", gf2.int_to_bits(m, 7)))
+
+
+def _centre_value(emb16: int, embedded32: int) -> int:
+    return ((emb16 >> 8) << 40) | (embedded32 << 8) | (emb16 & 0xFF)
+
+
+def _dist_to_nearest_sync(centre: int) -> int:
+    return min(bin(centre ^ s).count("1") for s in _ALL_SYNC_VALUES)
+
+
+def drv_voice_near_sync(ctx: Ctx, sub: SubCheck):
+    """Inputs at minimal Hamming distance from a magic constant: burst centres made of a VALID EMB word around embedded bits
+    that are as close to a SYNC pattern as a valid-EMB centre can be.  For each of the 10 SYNC words S of table 9.2 and each
+    of the 128 EMB codewords E: centre = E[0:8] + S[8:40] + E[8:16] (this contains, for every S, the centre whose outer 16
+    bits are the codeword NEAREST to S's outer bits), plus the same with single embedded bits flipped (all 32 positions for
+    the codewords within 2 of the per-S minimum and in the thorough tier, a seeded sample otherwise) and seeded pairs of
+    flipped bits.  Same oracle as the other voice sub-checks."""
+    _preimport()
+    syncs = sorted(_ALL_SYNC_VALUES)
+    words = [_emb_word(m) for m in range(128)]
+    cells, dmin_all, closest = [], 99, []
+    for S in syncs:
+        outer, mid = ((S >> 40) << 8) | (S & 0xFF), (S >> 8) & 0xFFFFFFFF
+        dist = [bin(w ^ outer).count("1") for w in words]
+        dmin = min(dist)
+        for m in range(128):
+            cells.append((S, mid, m, dist[m] <= dmin + 2))
+            if dist[m] < dmin_all:
+                dmin_all, closest = dist[m], []
+            if dist[m] == dmin_all:
+                closest.append({"sync": "%012X" % S, "cc": m >> 3, "pi": (m >> 2) & 1, "lcss": m & 3, "emb_bits": "%08x" % mid})
+
+    def work(chunk, t: Tally):
+        for S, mid, m, near in chunk:
+            rng = ctx.rng("near_sync", S, m)
+            flips = [()]
+            pos = list(range(32)) if (near or not ctx.quick) else rng.sample(range(32), 2)
+            flips += [(p,) for p in pos]
+            flips += [tuple(rng.sample(range(32), 2)) for _ in range(ctx.pick(1, 4))]
+            for fl in flips:
+                eb = mid
+                for p in fl:
+                    eb ^= 1 << (31 - p)
+                c = {"center": "emb", "cc": m >> 3, "pi": (m >> 2) & 1, "lcss": m & 3, "emb_bits": "%08x" % eb, "voice": _voice_payload(rng)}
+                _SIDE.clear()
+                ctx.run_case(sub.name, oracle_voice, c, t)
+                d = _dist_to_nearest_sync(_centre_value(words[m], eb))
+                t.case(sub.name, key=None, nontrivial=False, cls="distance_to_nearest_sync=%02d" % min(d, 9) + ("+" if d >= 9 else ""))
+                t.cls(sub.name, "embedded_bits_flipped=%d" % len(fl))
+                if _SIDE.get("nonzero", True):
+                    t.nt_hashes.add(digest([sub.name, c]))
+                if d <= 3:
+                    t.sample(sub.name, c)
+
+    ctx.shards(work, [cells[i::64] for i in range(64)])
+    ctx.tally.extra["near_sync_min_hamming_distance_valid_emb_centre_to_any_sync"] = dmin_all
+    ctx.tally.extra["near_sync_centres_at_min_distance"] = closest
+    ctx.tally.extra["near_sync_grid_cells_sync_x_emb_word"] = len(cells)
+
+
 def drv_voice_random(ctx: Ctx, sub: SubCheck):
     _preimport()
     from hypothesis import strategies as st
@@ -650,6 +715,7 @@ SUBCHECKS = [
     SubCheck("data_random", oracle_data, drv_data_random, "Hypothesis-drawn (variant, fields, colour code, sync): same oracle"),
     SubCheck("reuse", oracle_reuse, drv_reuse, "stale state on reused objects: one Burst (assembled or parsed) carries state 1, is serialised (as_bytes/as_bits/repr/debug), is re-targeted to state 2 (payload replaced or rewritten in place, slot type, sync) and back: every serialisation equals a freshly assembled burst"),
     SubCheck("voice_grid", oracle_voice, drv_voice_grid, "all 128 (cc, PI, LCSS) EMB codewords and the 4 voice syncs x random vocoder/embedded bits: parse-then-serialise is the identity"),
+    SubCheck("voice_near_sync", oracle_voice, drv_voice_near_sync, "voice bursts whose valid-EMB centre is at minimal Hamming distance from a SYNC pattern: 10 SYNC words x 128 EMB codewords with the SYNC word's own middle bits as embedded bits, and 1-2 embedded bits flipped"),
     SubCheck("voice_random", oracle_voice, drv_voice_random, "Hypothesis-drawn voice bursts (both centre kinds): same oracle"),
 ]
 PREDICATES = {}
